@@ -344,3 +344,39 @@ func countPFields(v reflect.Value, depth int) int {
 	}
 	return n
 }
+
+// walkPFields calls fn for every exported PField reachable from obj.
+func walkPFields(obj interface{}, path string, fn func(path string, f sipsp.PField)) {
+	walkPF(reflect.ValueOf(obj), path, fn, 0)
+}
+
+func walkPF(v reflect.Value, path string, fn func(string, sipsp.PField), depth int) {
+	if depth > 8 {
+		return
+	}
+	switch v.Kind() {
+	case reflect.Ptr, reflect.Interface:
+		if !v.IsNil() {
+			walkPF(v.Elem(), path, fn, depth+1)
+		}
+	case reflect.Struct:
+		if v.Type() == pfieldType {
+			fn(path, sipsp.PField{Offs: sipsp.OffsT(v.Field(0).Uint()), Len: sipsp.OffsT(v.Field(1).Uint())})
+			return
+		}
+		t := v.Type()
+		for i := 0; i < v.NumField(); i++ {
+			f := t.Field(i)
+			if f.PkgPath != "" && !f.Anonymous {
+				continue
+			}
+			walkPF(v.Field(i), path+"."+f.Name, fn, depth+1)
+		}
+	case reflect.Slice, reflect.Array:
+		if v.Type().Elem().Kind() != reflect.Uint8 {
+			for i := 0; i < v.Len(); i++ {
+				walkPF(v.Index(i), fmt.Sprintf("%s[%d]", path, i), fn, depth+1)
+			}
+		}
+	}
+}
